@@ -1,14 +1,10 @@
 (* Real-number lemmas for M_rodrigues.v (C10): exact half-turns (the octant logic of the s < 1e-5, c <= 0 branch). *)
 From Coq Require Import ZArith Reals Lra Psatz List Bool Lia Nsatz.
 From PW Require Import Num NumR Vec Mat NpList Result.
-From PW.model Require Import M_rodrigues.
+From PW.model Require Import M_rodrigues M_rodrigues_spec.
 From PW.proofs Require Import P_vec P_mat P_rodrigues P_rodrigues_inv P_rodrigues_jac P_rodrigues_rt.
 Import ListNotations.
 Local Open Scope R_scope.
-
-(* R = 2 k k^T - I *)
-Definition half_turn (k : vec3 R) : mat3 R :=
-  m3add ROps (m3scale ROps 2 (m3outer ROps k)) (m3scale ROps (-1) (I3 ROps)).
 
 Lemma diag_root_half x : x * x <= 1 -> rod_diag_root ROps (2 * (x * x) + -1 * 1) = Rabs x.
 Proof.
